@@ -172,7 +172,7 @@ int main(int argc, char **argv) {
     for (int i = 0; i < NPROFILES; i++) if (!strcmp(PROFILES[i].prop, PROP)) { P = PROFILES[i]; found = 1; }
     if (!found) { fprintf(stderr, "unknown profile %s\n", PROP); return 2; }
     for (int i = 1; i < argc - 1; i++) { if (!strcmp(argv[i], "--nmods")) P.nmods = atoi(argv[i + 1]); if (!strcmp(argv[i], "--maxdev")) P.maxdev = atoi(argv[i + 1]); }
-    RULES = P.rules | R_FD;
+    RULES = P.rules | R_FD; adv_drains = (P.groups & G_BATCH) != 0;
     snprintf(cfg_str, sizeof cfg_str, "world prop=%s modules=%d maxdev=%d", P.prop, P.nmods, P.maxdev);
     model_reset();            /* computes the pattern/topic match table once, before any fork */
     if (P.kinds & ((1u << K_PATH) | (1u << K_PID))) {      /* real directories and real child processes as path / pid keys */
